@@ -327,3 +327,14 @@ pub(crate) fn verif_price_path(
 ) -> Option<usize> {
     planner::verif_price_path(data, 0, EncodationType::Ascii, symbol_list, path)
 }
+
+/// Verification hook: forced-path pricing with header codewords already written.
+#[cfg(feature = "verif_hooks")]
+pub(crate) fn verif_price_path_after(
+    data: &[u8],
+    written: usize,
+    symbol_list: &SymbolList,
+    path: &[(usize, EncodationType)],
+) -> Option<usize> {
+    planner::verif_price_path(data, written, EncodationType::Ascii, symbol_list, path)
+}
